@@ -371,18 +371,21 @@ Definition alias_of (p : program) (t : nat) (q : name) : bool :=
               (xk_targets (get_class p c))
   end.
 
-Definition quirk_of (p : program) (ids : list nat) : quirks :=
+(* `input`: which side of the comparison is being normalised (q_edef excuses lost input instances only) *)
+Definition quirk_of (p : program) (ids : list nat) (input : bool) : quirks :=
   mk_quirks (existsb (Nat.eqb 1) ids) (existsb (Nat.eqb 2) ids) (existsb (Nat.eqb 3) ids)
-            (if existsb (Nat.eqb 4) ids then alias_of p else no_alias).
+            (if existsb (Nat.eqb 4) ids then alias_of p else no_alias)
+            (input && existsb (Nat.eqb 5) ids) (existsb (Nat.eqb 6) ids).
 
-(* subsets of {1 nil, 2 empty, 3 union, 4 alias}, smallest first *)
-Definition quirk_sets : list (list nat) :=
-  [ []; [1]; [2]; [3]; [4]; [1; 2]; [1; 3]; [1; 4]; [2; 3]; [2; 4]; [3; 4];
-    [1; 2; 3]; [1; 2; 4]; [1; 3; 4]; [2; 3; 4]; [1; 2; 3; 4] ].
+(* subsets of {1 nil, 2 empty, 3 union, 4 alias, 5 empty-with-default lost}, smallest first *)
+Definition subsets_of_size (k : nat) : list (list nat) :=
+  filter (fun l => length l =? k)
+         (fold_right (fun x acc => acc ++ map (cons x) acc) [[]] [1; 2; 3; 4; 5; 6]).
+Definition quirk_sets : list (list nat) := concat (map subsets_of_size [0; 1; 2; 3; 4; 5; 6]).
 
 Definition docs_equal_under (p : program) (ids : list nat) (a b : xdoc) : bool :=
-  let qk := quirk_of p ids in
-  ndoc_eqb (S (fuel_of a)) (p_schema p) (fun _ => false) (norm_doc_q qk p a) (norm_doc_q qk p b).
+  ndoc_eqb (S (fuel_of a)) (p_schema p) (fun _ => false)
+           (norm_doc_q (quirk_of p ids true) p a) (norm_doc_q (quirk_of p ids false) p b).
 
 Definition doc_quirks (pd : program * doc) : list nat :=
   let (p, d) := pd in
@@ -404,7 +407,7 @@ Definition matrix_equal (pab : program * (xdoc * xdoc)) : bool :=
 Definition doc_active (pd : program * doc) : list nat :=
   let (p, d) := pd in
   filter (fun i => negb (ndoc_eqb (S (fuel_of (d_in d))) (p_schema p) (fun _ => true)
-                                   (norm_doc_q (quirk_of p [i]) p (d_in d)) (norm_doc p (d_in d)))) [1; 2; 3; 4].
+                                   (norm_doc p (d_in d)) (norm_doc_q (quirk_of p [i] true) p (d_in d)))) [1; 2; 3; 4; 5; 6].
 
 (* 3. same elements, attributes and typed values (defaults applied); order where it is claimed *)
 Definition doc_infoset_ok (pd : program * doc) : bool :=
@@ -553,8 +556,9 @@ Definition doc_diff (pd : program * doc) : list name :=
   match d_out d with
   | None => []
   | Some o =>
-      let qk := match doc_quirks pd with [9] => quirk_of p [1; 2; 3; 4] | _ => no_quirks end in
-      ndoc_diff (S (fuel_of (d_in d))) (p_schema p) (norm_doc_q qk p (d_in d)) (norm_doc_q qk p o)
+      let ids := match doc_quirks pd with [9] => [1; 2; 3; 4; 5; 6] | _ => [] end in
+      ndoc_diff (S (fuel_of (d_in d))) (p_schema p) (norm_doc_q (quirk_of p ids true) p (d_in d))
+                (norm_doc_q (quirk_of p ids false) p o)
   end.
 
 (* ---------------------------------------------------------------- the same schema under two option sets *)
@@ -567,6 +571,28 @@ Definition opt_same {A} (a b : option A) : bool :=
   match a, b with Some _, Some _ | None, None => true | _, _ => false end.
 
 (* equal up to collection factories and class nesting (neither is part of the abstract) *)
+(* the part of the metadata that matters for a type: fields restricted to the element names of its content model
+   (a class may carry extra, never used fields under one option set), ranks replaced by their relative order *)
+Fixpoint insert_rank (f : xfield) (l : list xfield) : list xfield :=
+  match l with [] => [f] | g :: r => if xf_rank f <=? xf_rank g then f :: l else g :: insert_rank f r end.
+Definition relevant_meta (c : xcm) (m : xmeta) : xmeta :=
+  let fs := concat (map (fun f => let ns := filter (fun q => existsb (name_eqb q) (xalphabet c)) (xf_names f) in
+                                  match ns, xf_wild f with
+                                  | [], None => []
+                                  | _, _ => [mk_xfield ns (xf_wild f) (xf_bounded f) (xf_required f) (xf_rank f)]
+                                  end) (xm_fields m)) in
+  let order := map xf_names (fold_right insert_rank [] fs) in
+  mk_xmeta (map (fun f => mk_xfield (xf_names f) (xf_wild f) (xf_bounded f) (xf_required f)
+                                    (length (filter (fun ns => negb (list_eqb name_eqb ns (xf_names f))) (firstn 0 order)))) fs
+            ++ map (fun ns => mk_xfield ns None false false 0) order)
+           (xm_text m) (xm_mixed m).
+
+Definition class_equiv_for (d : tdef) (a b : xclass) : bool :=
+  meta_equiv (relevant_meta (tdef_cm d) (xk_meta a)) (relevant_meta (tdef_cm d) (xk_meta b))
+  && list_eqb afield_eqb (filter (fun f => match find_xattr d (af_name f) with Some _ => true | None => false end) (xk_afields a))
+                         (filter (fun f => match find_xattr d (af_name f) with Some _ => true | None => false end) (xk_afields b))
+  && opt_same (xk_anyattr a) (xk_anyattr b) && opt_same (xk_text a) (xk_text b).
+
 Definition class_equiv (a b : xclass) : bool :=
   meta_equiv (xk_meta a) (xk_meta b) && list_eqb afield_eqb (xk_afields a) (xk_afields b)
   && opt_same (xk_anyattr a) (xk_anyattr b) && opt_same (xk_text a) (xk_text b).
@@ -580,6 +606,29 @@ Definition trivial_type (d : tdef) : bool :=
 Definition program_inequiv (a b : program) : list nat :=
   concat (map (fun tc => if trivial_type (get_type (p_schema a) (fst tc)) then [] else
                          match class_of_type b (fst tc) with
-                         | Some c' => if class_equiv (get_class a (snd tc)) (get_class b c') then [] else [fst tc]
+                         | Some c' => if class_equiv_for (get_type (p_schema a) (fst tc)) (get_class a (snd tc)) (get_class b c')
+                                      then [] else [fst tc]
                          | None => [fst tc]
                          end) (p_pairs a)).
+
+(* ---------------------------------------------------------------- one pass per document (the case files use these) *)
+(* [unordered equal; order as claimed; ... not claiming order below xs:all; ... nor for repeated element names] *)
+Definition doc_order_verdict (pd : program * doc) : list bool :=
+  let (p, d) := pd in
+  match d_out d with
+  | None => [true; true; true; true]
+  | Some o =>
+      let a := norm_doc p (d_in d) in
+      let b := norm_doc p o in
+      let eq := fun ord => ndoc_eqb (S (fuel_of (d_in d))) (p_schema p) ord a b in
+      let excl := fun (ex : xcm -> bool) (ty : option nat) =>
+                    type_ordered p ty
+                    && negb (match ty with Some t => ex (tdef_cm (get_type (p_schema p) t)) | None => false end) in
+      if negb (eq (fun _ => false)) then [false; false; false; false]
+      else if eq (type_ordered p) then [true; true; true; true]
+      else [true; false; eq (excl xhas_all); eq (excl (fun c => xhas_all c || has_dup (xalphabet c)))]
+  end.
+
+(* the deviations with instances in the input: only needed for documents the real code refuses *)
+Definition doc_active_if_failed (pd : program * doc) : list nat :=
+  match d_out (snd pd) with None => doc_active pd | Some _ => [] end.
